@@ -373,6 +373,7 @@ def run_traces(chk: core.Check, which: str, n: int, maxobj: int):
     for ls in core.parallel(_record, seeds, {"which": which, "maxobj": maxobj, "paths": 8}):
         lines.extend(ls)
     rej = trace_validate(chk, lines)
+    core.canary(chk, lines, trace_validate, what="Trace_Tree", skip=set(rej))
     chk.traces_accepted += len(lines) - len(rej)
     chk.evaluations += len(lines)
     for i in rej[:25]:
